@@ -1,5 +1,6 @@
 import Httoop.Proto
 import Httoop.Model.Uri
+import Httoop.Model.StartLine
 import Httoop.Spec.Rfc3986
 import Httoop.Gen.Tables
 /- driver operations for the URI model; the environment (scheme registry, safe sets) is the regenerated one -/
@@ -38,6 +39,15 @@ def opsUri (op : String) (args : List String) : Option String :=
       let bu ← parse env none b
       let ru ← parse env none r
       pure (join env bu ru)))
+  | "uri.build", some [sc, us, pw, h, port, path, q, f] =>
+    -- URI(scheme=…, …) via the dict setter: scheme switches the class, a falsy port becomes the class PORT
+    let u0 := setScheme env.schemes {} sc
+    let p : Option Nat := if port.isEmpty then u0.PORT else some (StartLine.decNat port)
+    let u : Uri := { u0 with username := us, password := pw, host := h, port := p, path := path, query := q, fragment := f }
+    some (match compose sets u with
+      | .error (.escape "model:needs-oracle") => "skip"
+      | .error e => "err " ++ e.render
+      | .ok b => hexOrDash b ++ " " ++ renderRSkip renderUri (parse env none b))
   | "uri.eq", some [a, b] => some (renderRSkip toString (do
       let au ← parse env none a
       eqText env au b))
